@@ -133,6 +133,90 @@ def model(action, table_id, pre_rows, post_rows, trig, fin, col_map):
   return None
 
 
+NEED = {"NO": 0, "MAY": 1, "MUST": 2}
+
+
+def model_multi(actions, pre_rows, post_rows, trig, fin):
+  """Bundles of several UpdateRecord / BulkUpdateRecord actions on one table.  The statement's
+  exemption ("a value set explicitly in the same user action is kept") is PER USER ACTION, while
+  recalculation happens once, when the bundle ends: per (row, counter column) the actions are
+  folded in order into (stored value, need) with need in NO < MAY < MUST:
+    - an explicit value (column not depending on itself) replaces the stored value and exempts the
+      column from the triggers of THAT action only; a recalculation already owed because of an
+      EARLIER action becomes MAY (the statement does not order the two);
+    - a trigger raised by a LATER action is owed in full (MUST) - it recalculates from the
+      explicitly stored value.
+  Data cells are simulated by applying the writes in order; a formula dependency counts as changed
+  (MUST) only when its value differs over the whole bundle and exactly one action wrote its inputs,
+  otherwise as possibly recomputed (MAY)."""
+  tcols = {c: k for c, k in trig.items() if k is not None}
+  sim = {r: dict(v) for r, v in pre_rows.items()}
+  state = {}
+  for r in pre_rows:
+    for c in tcols:
+      o = pre_rows[r].get(c)
+      if not _is_int(o) and o is not None: return None
+      state[(r, c)] = [o, "NO", False]
+  writers = {}          # formula column -> number of actions that wrote one of its inputs, per row
+  steps = []
+  for a in actions:
+    bulk = a[0].startswith("Bulk")
+    rows = a[2] if bulk else [a[2]]
+    vals = a[3]
+    if len(set(rows)) != len(rows) or not all(r in pre_rows for r in rows): return None
+    if any(c in fin for c in vals): return None
+    given = {r: {c: (v[i] if bulk else v) for c, v in vals.items()} for i, r in enumerate(rows)}
+    steps.append(given)
+    for r, g in given.items():
+      for f, inputs in fin.items():
+        if inputs & set(g): writers[(r, f)] = writers.get((r, f), 0) + 1
+  def bump(cell, level):
+    if NEED[level] > NEED[cell[1]]: cell[1] = level
+  for given in steps:
+    for r, g in given.items():
+      stored = {d: state[(r, d)][0] for d in tcols}
+      for c, k in tcols.items():
+        cell = state[(r, c)]
+        if c in g:
+          v = g[c]
+          if not _is_int(v): return None
+          if not k["selfdep"]:
+            cell[0] = v
+            cell[1] = "MAY" if cell[1] != "NO" else "NO"
+            cell[2] = True
+            continue
+          if v != cell[0]: bump(cell, "MUST")
+          else: bump(cell, "MAY")
+          cell[0] = v
+          continue
+        if k["when"] == NEVER: continue
+        if k["when"] == MANUAL:
+          changed = any(g[d] != (stored[d] if d in tcols else sim[r].get(d))
+                        for d in g if d not in fin and d != c)
+          if changed: bump(cell, "MUST")
+          elif g: bump(cell, "MAY")
+          continue
+        for d in k["deps"]:
+          if d == c: continue
+          if d in fin:
+            if fin[d] & set(g):
+              once = writers.get((r, d), 0) == 1
+              differs = post_rows.get(r, {}).get(d) != pre_rows[r].get(d)
+              bump(cell, "MUST" if (once and differs) else "MAY")
+          elif d in g:
+            bump(cell, "MUST" if g[d] != sim[r].get(d) else "MAY")
+      for d, v in g.items():
+        if d not in tcols: sim[r][d] = v
+  exp = []
+  for (r, c), (val, need, explicit) in state.items():
+    base = val or 0
+    if need == "MUST": exp.append((r, c, {base + 1}, "C15.fires_when_required"))
+    elif need == "MAY": exp.append((r, c, {val, base + 1}, "C15.silent_otherwise"))
+    else:
+      exp.append((r, c, {val}, "C15.explicit_value_kept" if explicit else "C15.silent_otherwise"))
+  return exp
+
+
 # ------------------------------------------------------------------------------------------------
 # histories
 # ------------------------------------------------------------------------------------------------
@@ -192,6 +276,22 @@ class C15Monitor(explore.Monitor):
       if r is not None and rng.random() < 0.25: return cur[r].get(c)       # write the same value
       return rng.choice(pool)
     x = rng.random()
+    if rows and tc and rng.random() < 0.3:
+      # several user actions in one bundle on the same row(s): explicit writes to counter columns
+      # and changes of their dependencies, in either order
+      r = rng.choice(rows)
+      acts = []
+      for _ in range(rng.randint(2, 3)):
+        y = rng.random()
+        rr = r if rng.random() < 0.8 else rng.choice(rows)
+        if y < 0.45:
+          acts.append(["UpdateRecord", t, rr, {rng.choice(tc): rng.choice([0, 5, 10, 42])}])
+        elif y < 0.9 and data:
+          cols = rng.sample(data, rng.randint(1, min(2, len(data))))
+          acts.append(["UpdateRecord", t, rr, {c: val(c, rr) for c in cols}])
+        elif data:
+          acts.append(["UpdateRecord", t, rr, {rng.choice(tc): rng.choice([1, 7]), data[0]: val(data[0], rr)}])
+      if len(acts) >= 2: return acts
     if x < 0.5 and rows:
       r = rng.choice(rows)
       cols = rng.sample(data, rng.randint(0, min(2, len(data)))) if data else []
@@ -223,6 +323,17 @@ class C15Monitor(explore.Monitor):
 
   def before(self, st, e, bundle):
     st["case"] = None
+    if len(bundle) > 1:
+      if not all(len(x) == 4 and x[0] in ("UpdateRecord", "BulkUpdateRecord") and x[1] == bundle[0][1]
+                 and isinstance(x[3], dict) for x in bundle): return
+      t = bundle[0][1]
+      if not isinstance(t, str) or t not in e.tables or t.startswith("_grist_"): return
+      trig, fin = config(e, t)
+      if not any(trig.values()): return
+      tref = eng.table_ref(e, t)
+      refs = {c["id"]: c["colId"] for c in eng.meta_records(e, "_grist_Tables_column") if c["parentId"] == tref}
+      st["case"] = (("MULTI", list(bundle)), t, tref, table_rows(e, t), trig, fin, refs)
+      return
     if len(bundle) != 1: return
     a = bundle[0]
     name = a[0]
@@ -249,7 +360,11 @@ class C15Monitor(explore.Monitor):
     col_map = {refs[r]: refs_now[r] for r in refs if r in refs_now}
     post_rows = table_rows(e, t_now)
     try:
-      exp = model(a, t, pre_rows, post_rows, trig, fin, col_map)
+      if a[0] == "MULTI":
+        exp = model_multi(a[1], pre_rows, post_rows, trig, fin)
+        if exp is not None: ST["multi_action_bundles_checked"] += 1
+      else:
+        exp = model(a, t, pre_rows, post_rows, trig, fin, col_map)
     except Exception as ex:
       return [("C15.model_error", {"error": repr(ex), "action": a})]
     if exp is None:
@@ -288,6 +403,22 @@ class C15Monitor(explore.Monitor):
     if detail.get("depends_on_itself"): when += "+self"
     act = detail.get("action", ["?"])[0]
     b, a = detail.get("before"), detail.get("after")
+    if clause == "C15.explicit_value_kept" and act == "MULTI" and not detail.get("depends_on_itself"):
+      acts = detail["action"][1]
+      col, row = detail.get("column"), detail.get("row")
+      allowed = detail.get("allowed") or [None]
+      def writes(x):
+        rows = x[2] if isinstance(x[2], list) else [x[2]]
+        return row in rows and col in x[3]
+      idx = [i for i, x in enumerate(acts) if writes(x)]
+      if idx and _is_int(a) and _is_int(allowed[0]) and a == allowed[0] + 1:
+        x = acts[idx[-1]]
+        v = x[3][col][x[2].index(row)] if isinstance(x[2], list) else x[3][col]
+        if len(idx) == 1 and v == b:
+          return "explicit_value_kept:update:supplied-value-equals-stored-value-so-not-protected"
+        if idx[-1] < len(acts) - 1:
+          return ("explicit_value_kept:bundle:value-supplied-by-a-non-last-action-recalculated-"
+                  "by-that-action's-own-trigger")
     if clause == "C15.explicit_value_kept" and not detail.get("depends_on_itself"):
       allowed = detail.get("allowed") or [None]
       if "Add" in act and detail.get("recalcDeps") and _is_int(a) and a == allowed[0] + 1:
@@ -298,7 +429,8 @@ class C15Monitor(explore.Monitor):
     return "%s:%s after %s delta=%s" % (clause.split(".", 1)[1], when, act, delta)
 
 
-ST = {"actions_checked": 0, "cells_checked": 0, "must_fire": 0, "unmodelled": 0}
+ST = {"actions_checked": 0, "cells_checked": 0, "must_fire": 0, "unmodelled": 0,
+      "multi_action_bundles_checked": 0}
 _REPORTED = set()
 _KNOWN = []
 
@@ -354,6 +486,7 @@ def main():
   cov["cells_checked"] = tot["cells_checked"]
   cov["cells_required_to_fire"] = tot["must_fire"]
   cov["actions_outside_the_model"] = tot["unmodelled"]
+  cov["multi_action_bundles_checked"] = tot["multi_action_bundles_checked"]
   cov["exhaustive"] = False
   if tot["actions_checked"] == 0:
     rep.undecided_obligation("C15.fires_when_required", "no action was checked against the model")
